@@ -7,6 +7,7 @@
 (*     insn  [mn, form, e]          label  [name, hasBody, body]     braces [sid, body]      *)
 (*     const [name, e]              data   [w, es]                   loop   [n, sid, body]   *)
 (*     assert [aid, e, hasMsg, msg] test   [name, body]              useseg [name, body]     *)
+(*     setpc [e]   (`* = e')                                                                  *)
 (*   expressions are Expr trees; identifier nodes carry `name' (unique per spelling) and     *)
 (*   `path'; two more node kinds exist in assertions: ram [e] and ram16 [e].                 *)
 (*                                                                                          *)
@@ -45,18 +46,28 @@ EnvOf(t, tab, scope) ==
 Unresolved(t, tab, scope) == {i \in Ids(t) : ~Resolvable(tab, scope, i)}
 
 Bottom == [k |-> "bin", op |-> "/", l |-> Num(1), r |-> Num(0)]      \* a tree whose value is E!UNDEF
-RECURSIVE NoRam(_, _, _, _)
+(* marks a read that runs off the end of memory (the high byte of ram16($ffff)): it "cannot be evaluated" *)
+NoRead == [k |-> "id", name |-> "$noread", path |-> <<"$noread">>, mod |-> ""]
+RECURSIVE NoRam(_, _, _, _), HasNoRead(_)
 (* replace ram(e) / ram16(e) by the byte / little-endian word found in memory *)
 NoRam(t, env, pc, mem) ==
   CASE t.k \in {"ram", "ram16"} ->
-         LET v == E!Eval(NoRam(t.e, env, pc, mem), env, pc) IN
-         IF v.k # "num" THEN Bottom
-         ELSE IF v.n < 0 \/ v.n > 65535 \/ (t.k = "ram16" /\ v.n = 65535) THEN Bottom     \* silent: address outside the machine
+         LET t1 == NoRam(t.e, env, pc, mem)
+             v == E!Eval(t1, env, pc) IN
+         IF HasNoRead(t1) THEN NoRead
+         ELSE IF v.k # "num" THEN Bottom
+         ELSE IF v.n < 0 \/ v.n > 65535 THEN Bottom                        \* silent: no such address in the machine
+         ELSE IF t.k = "ram16" /\ v.n = 65535 THEN NoRead                   \* a word has two bytes; there is no $10000
          ELSE Num(IF t.k = "ram" THEN Rd(mem, v.n) ELSE Rd16(mem, v.n))
     [] t.k = "par" -> [t EXCEPT !.e = NoRam(t.e, env, pc, mem)]
     [] t.k = "fac" -> [t EXCEPT !.e = NoRam(t.e, env, pc, mem)]
     [] t.k = "bin" -> [t EXCEPT !.l = NoRam(t.l, env, pc, mem), !.r = NoRam(t.r, env, pc, mem)]
     [] OTHER -> t
+HasNoRead(t) ==
+  CASE t.k = "id" -> t.name = "$noread"
+    [] t.k \in {"par", "fac"} -> HasNoRead(t.e)
+    [] t.k = "bin" -> HasNoRead(t.l) \/ HasNoRead(t.r)
+    [] OTHER -> FALSE
 
 (* CPU registers and flags as symbols.  Whether a set flag reads 1 or its mask bit is not fixed by *)
 (* the property: both conventions are evaluated and an assertion on which they disagree is silent.  *)
@@ -68,12 +79,19 @@ CpuSyms(c, conv) ==
   ("cpu.flags.overflow" :> fl(c.f.v, 64)) @@ ("cpu.flags.negative" :> fl(c.f.n, 128))
 
 (* "true" / "false" (zero, or cannot be evaluated) / "unspec" (the property is silent) *)
+AssertTree(a, c, sigma, conv) ==           \* the assertion's expression with the memory reads done (identifiers must be resolvable)
+  LET tab == CpuSyms(c, conv) @@ a.idx @@ sigma IN NoRam(a.e, EnvOf(a.e, tab, a.scope), a.pc, c.mem)
 TruthC(a, c, sigma, conv) ==
   LET tab == CpuSyms(c, conv) @@ a.idx @@ sigma IN
   IF Unresolved(a.e, tab, a.scope) # {} THEN "false"
   ELSE LET env == EnvOf(a.e, tab, a.scope)
-           v == E!Eval(NoRam(a.e, env, a.pc, c.mem), env, a.pc) IN
-       IF v.k = "num" THEN (IF v.n = 0 THEN "false" ELSE "true") ELSE "unspec"
+           t2 == AssertTree(a, c, sigma, conv)
+           v == E!Eval(t2, env, a.pc) IN
+       IF HasNoRead(t2) THEN "false"
+       ELSE IF v.k = "num" THEN (IF v.n = 0 THEN "false" ELSE "true") ELSE "unspec"
+(* the assertion cannot be evaluated because a ram16() runs off the end of memory *)
+ReadsPastTop(a, c, sigma) ==
+  Unresolved(a.e, CpuSyms(c, "mask") @@ a.idx @@ sigma, a.scope) = {} /\ HasNoRead(AssertTree(a, c, sigma, "mask"))
 Truth(a, c, sigma) ==
   LET m == TruthC(a, c, sigma, "mask") IN IF m = TruthC(a, c, sigma, "bit") THEN m ELSE "unspec"
 
@@ -86,7 +104,8 @@ Emit(st, bytes) ==
   LET s == st.segs[st.cur]
       n == Len(bytes) IN
   IF s.pc + n > 65536 THEN [st EXCEPT !.bad = TRUE]
-  ELSE [st EXCEPT !.segs[st.cur] = [pc |-> s.pc + n, mem |-> [a \in s.pc..(s.pc + n - 1) |-> bytes[a - s.pc + 1]] @@ s.mem]]
+  ELSE [st EXCEPT !.segs[st.cur] = [pc |-> s.pc + n, mem |-> [a \in s.pc..(s.pc + n - 1) |-> bytes[a - s.pc + 1]] @@ s.mem],
+                  !.first = IF st.inTest /\ @ < 0 /\ n > 0 THEN s.pc ELSE @]
 Define(st, name, v) == [st EXCEPT !.tab = (A!Key(st.scope, <<name>>) :> v) @@ @]
 Front(s) == SubSeq(s, 1, Len(s) - 1)
 
@@ -144,8 +163,17 @@ LayStmt(s, st, sigma, active) ==
     [] s.k = "test" ->
         IF A!Key(st.scope, <<s.name>>) # active THEN st         \* bodies of the other tests are not assembled at all
         ELSE LET pc0 == TPc(st)
-                 r == LaySeq(s.body, st, sigma, active) IN       \* no scope of its own
-             [Define(r, s.name, Num(pc0)) EXCEPT !.entry = pc0, !.entrySeg = st.cur]
+                 r == LaySeq(s.body, [st EXCEPT !.inTest = TRUE, !.first = -1], sigma, active) IN       \* no scope of its own
+             (* entry: the test's first instruction = the first byte its body emits (a `* =' may precede it);
+                entry0: the address at which the .test directive stands (where the implementation starts the cpu:
+                deviation TestStartsAtDirectiveAddress) *)
+             [Define(r, s.name, Num(pc0)) EXCEPT !.inTest = FALSE, !.entry = IF r.first >= 0 THEN r.first ELSE pc0, !.entry0 = pc0,
+                                                 !.entrySeg = st.cur]
+    [] s.k = "setpc" ->
+        LET v == Operand(s.e, st, sigma) IN
+        IF v.k = "unres" THEN [st EXCEPT !.unres = TRUE]
+        ELSE IF v.k # "num" \/ v.n < 0 \/ v.n > 65535 THEN [st EXCEPT !.bad = TRUE]
+        ELSE [st EXCEPT !.segs[st.cur].pc = v.n]
     [] s.k = "useseg" ->
         IF s.name \notin DOMAIN st.segs THEN [st EXCEPT !.bad = TRUE]
         ELSE [LaySeq(s.body, [st EXCEPT !.cur = s.name], sigma, active) EXCEPT !.cur = st.cur]
@@ -156,8 +184,8 @@ Lay0(prj) ==
   LET sd == SegDefs(prj) IN
   [segs |-> [n \in {sd[i].name : i \in 1..Len(sd)} |->
                [pc |-> (CHOOSE d \in {sd[i] : i \in 1..Len(sd)} : d.name = n).start, mem |-> <<>>]],
-   cur |-> sd[1].name, scope |-> <<>>, tab |-> <<>>, idx |-> <<>>, asserts |-> <<>>, entry |-> -1, entrySeg |-> "",
-   unres |-> FALSE, bad |-> FALSE]
+   cur |-> sd[1].name, scope |-> <<>>, tab |-> <<>>, idx |-> <<>>, asserts |-> <<>>, entry |-> -1, entry0 |-> -1, entrySeg |-> "",
+   inTest |-> FALSE, first |-> -1, unres |-> FALSE, bad |-> FALSE]
 Lay(prj, active, sigma) == LaySeq(prj.items, Lay0(prj), sigma, active)
 
 (* the assembler's fixed point: walk again under the previous walk's symbols until nothing moves *)
@@ -181,9 +209,9 @@ BankMem(sd, segs, bank) ==
 Layout(prj, active) ==
   LET f == Fix(prj, active, <<>>, 6)
       sd == SegDefs(prj) IN
-  IF ~f.ok \/ f.lay.entry < 0 THEN [ok |-> FALSE, entry |-> 0, mem |-> <<>>, asserts |-> <<>>, sigma |-> <<>>, base |-> 0]
+  IF ~f.ok \/ f.lay.entry < 0 THEN [ok |-> FALSE, entry |-> 0, entry0 |-> 0, mem |-> <<>>, asserts |-> <<>>, sigma |-> <<>>, base |-> 0]
   ELSE LET bank == (CHOOSE d \in {sd[i] : i \in 1..Len(sd)} : d.name = f.lay.entrySeg).bank IN
-       [ok |-> TRUE, entry |-> f.lay.entry, mem |-> BankMem(sd, f.lay.segs, bank), asserts |-> f.lay.asserts,
+       [ok |-> TRUE, entry |-> f.lay.entry, entry0 |-> f.lay.entry0, mem |-> BankMem(sd, f.lay.segs, bank), asserts |-> f.lay.asserts,
         sigma |-> f.lay.tab, base |-> 0]
 
 (* tests in the order `mos test' runs them (the harness supplies the order of their source positions) *)
@@ -281,6 +309,19 @@ Run(T, once) == RunFrom(T, Start(T), once)
 (* the narrow witness of the open finding: the assertion the property fails the test at had already *)
 (* been matched on an earlier visit of its pc                                                     *)
 FiresOnceWitness(id) == id.v = "failed" /\ id.visit > 1
+
+(* the two narrow witnesses under which a crash of `mos test' inside test T is a recorded finding:          *)
+(*  "slice":    the property fails T at an assertion whose ram16() runs off the end of memory                *)
+(*  "overflow": T's path, every assertion on it true, arrives at an instruction that touches $FFFF (TopEdge) *)
+(*  ("silent": the property says nothing about T from some point on, so the witness cannot be evaluated)     *)
+CrashWitness(T) ==
+  LET id == Ideal(T)
+      p == Path(T) IN
+  IF id.v = "failed" /\ (\E j \in 1..Len(T.asserts) : T.asserts[j].aid = id.aid /\ T.asserts[j].pc = p[id.i].pc
+                                                      /\ ReadsPastTop(T.asserts[j], p[id.i], T.sigma)) THEN "slice"
+  ELSE IF id.v = "unspec" /\ Len(p) > 0 /\ TopEdge(p[Len(p)]) /\ Holds(T, p[Len(p)]) /\ Rd(p[Len(p)].mem, p[Len(p)].pc) # 0 THEN "overflow"
+  ELSE IF id.v = "unspec" THEN "silent"          \* the model has left the test earlier (decimal add, unmodelled instruction, fuel): it cannot tell
+  ELSE "none"
 
 (* does a finished run agree with the property? *)
 Agrees(s, id) ==
